@@ -16,7 +16,7 @@ Line-protocol front end of the C12/C13 model (shared by `Driver/C12.lean` and `D
   answer: `reject kind=<SReject>` or
   `ok tr=<post-merge transactions> me=<methods> groups=<a,b|c,d> merge=<0|1> cond=<condOk for every use>
       cgr=<a-b,…> vo=<validOrder of porder> hyp=<Bridge.staticOk> shape12=<…> nbr=<…> shape13=<…>`
-* valuation line `v i=<bit per input> d=<value per data input>` (`w …`: same without the expensive `hyp`)
+* valuation line `v i=<bit per input> d=<value per data input>` (`w …`: same without the expensive `hx`, `cons`, `hyp`)
   answer: `rdy=<ready per body> en=<enable per site> rn=<runnable per transaction> run=<run per body>
       arg=<arg per site> din=<data_in per method> res=<call result per user site>
       fix=<derived enables reached a fixed point> hx=<exclHolds> cons=<consistentEager> hyp=<Bridge.cycleOk|->
@@ -174,10 +174,10 @@ def start {α : Type} (ck : Checks α) (cfg : Cfg) : Option (St α) × String :=
                                en := cfg.en, args := cfg.args, nus := cfg.nus }
       let ids := List.range n
       let nSites := cfg.nus + out.enDeps.length
-      let st : St α := { env := env, pre := pa, L := L, ts := ids.filter D.transactions.contains, ms := ids.filter D.methods.contains,
-                       sp := exclSitePairs D, bp := exclBodyPairs D, conn := cfg.conn, nin := cfg.nin, ndin := cfg.ndin,
-                       nSites := nSites,
-                       userCallee := (List.range cfg.nus).map fun s => (D.allSites.find? (·.2.site == s)).map (·.2.callee) }
+      let userCallee := (List.range cfg.nus).map fun s => (D.allSites.find? (·.2.site == s)).map (·.2.callee)
+      let st : St α :=
+        ⟨env, pa, L, ids.filter D.transactions.contains, ids.filter D.methods.contains, exclSitePairs D, exclBodyPairs D,
+          cfg.conn, cfg.nin, cfg.ndin, nSites, userCallee⟩
       (some st, s!"ok tr={showList D.transactions} me={showList D.methods} groups={showGroups out.groups} merge={showBool merge} cond={showBool cond} cgr={cgr} vo={showBool vo} hyp={hyp} shape12={showBool s12} nbr={showBool nbr} shape13={showBool s13}")
 
 def evalLine {α : Type} (ck : Checks α) (st : St α) (t : List String) (full : Bool) : String :=
@@ -209,10 +209,12 @@ def evalLine {α : Type} (ck : Checks α) (st : St α) (t : List String) (full :
         | some (w, rd) => if m == rd then Simul.connectReadOut D E v rb w else Simul.connectWriteOut D E v rb rd
         | none => 0
     let hyp := if full then showBool (ck.cycleOk D E env.order v r.run) else "-"
+    let hx := if full then showBool (exclHoldsOn v st.sp st.bp) else "-"
+    let cons := if full then showBool (consistentEager D E v env.order r.run) else "-"
     let link := ck.linkEn st.pre v rb st.L
     let der := ck.derEn v rb env.out.enDeps
     let dflt := env.uses.all (ck.dflt v)
-    s!"rdy={showBits rdy} en={showBits en} rn={showBits rn} run={showBits r.rb} arg={showNats arg} din={showNats din} res={showNats res} fix={showBool r.fixed} hx={showBool (exclHoldsOn v st.sp st.bp)} cons={showBool (consistentEager D E v env.order r.run)} hyp={hyp} link={showBool link} der={showBool der} dflt={showBool dflt}"
+    s!"rdy={showBits rdy} en={showBits en} rn={showBits rn} run={showBits r.rb} arg={showNats arg} din={showNats din} res={showNats res} fix={showBool r.fixed} hx={hx} cons={cons} hyp={hyp} link={showBool link} der={showBool der} dflt={showBool dflt}"
 
 def stepLine {α : Type} (ck : Checks α) (st : Option (St α)) (line : String) : Option (St α) × String :=
   let line := line.trimAscii.toString
